@@ -242,8 +242,17 @@ def check_kernel_schedule(run, tree):
             run.violated("%s::shared-rmw::%s" % (KERNEL, norm(tgt)), fi.where(st), "`%s` inside prange: lost updates" % norm(st),
                          "two cells whose footprints overlap: the pixel value depends on the thread schedule")
         elif kind == "shared-store":
-            gtxt = [norm(g[0]) for g in guards if g[1]]
-            guarded = any(all(v in t for v in ("ok_x",)) or "<=" in t for t in gtxt)
+            # the conditions the store executes under, from the symbolic evaluation of the kernel (enclosing tests, flags assigned from
+            # tests, `if not inside: continue` clauses alike)
+            try:
+                from .kernel_rules import run_kernel
+                _, kev, _ = run_kernel(tree, 3)
+                terms = [t for rec in kev.stores if rec[5] is st for g in rec[3] for t in g.terms]
+            except Unsupported as e:
+                run.unresolved("%s::shared-store::%s" % (KERNEL, norm(tgt)), fi.where(st), "cannot evaluate the kernel symbolically: %s" % e)
+                continue
+            gtxt = [repr(t) for t in terms]
+            guarded = any(t.op == "<=" for t in terms)
             run.ob("%s::shared-store::%s" % (KERNEL, norm(tgt)), guarded, fi.where(st),
                    "plain store `%s` under guard(s) %s" % (norm(st), gtxt or "NONE"),
                    "an unguarded store lets every cell of the footprint overwrite the pixel: last writer wins")
